@@ -269,10 +269,41 @@ CHECKS.update({
    design_ref='DESIGN.md 4 (C16)'),
 })
 
+CHECKS.update({
+ 'C17': dict(
+   category='model_checking', engine='symx', note=PTRUST,
+   technique='path-forking symbolic execution (symx) of whole real multi-file loads in which all element names and reference texts of all files are opaque symbolic names (substituted when resolution starts); per reference a z3 validity query (under the path condition) for the documented lookup order own file / directly imported files in import order / builtin model, incl. the error cases; load-once, identity and repeated-load facts checked concretely on every path; counterexamples replayed with concrete names',
+   text=("Solver verdict over namings: three import graphs (diamond with a cycle back to the main file, self-import plus chain, glob pattern), PlainNameImportURI and FQNImportURI, "
+         "global repository on/off, builtin model on/off; for every feasible equality pattern between the names of all elements and all reference texts z3 proves that each reference "
+         "resolved to the unique element of the first scope level that has one (or that the load failed with the prescribed error); on every path each file was parsed exactly once, "
+         "one model object per file is registered, every reference is an element of the registered model of its file, and a second load returns the cached model (global repository) "
+         "or loads the closure afresh once."),
+   design_ref='DESIGN.md 4 (C17)'),
+})
+
+CHECKS.update({
+ 'C18': dict(
+   category='fault_enumeration', engine='symx', note=ENUM_NOTE,
+   technique='exhaustive enumeration (symx selectors) of failing file x failure kind x provider x global repository x prior successful load over whole real multi-file loads; repository contents, identities and the repaired reload compared with the prescribed state; no solver verdict',
+   text=("Path-exhaustive: after an optional successful load of good -> lib.m, main -> lib.m, mid.m -> deep.m is loaded while one of main / mid.m / deep.m fails by a syntax error, an "
+         "unknown reference, a missing import target, an object processor or a model processor (2 providers, global repository on/off = 120 runs): the global repository must hold "
+         "exactly the earlier cached models (same objects), no surviving repository may hold a model of the attempt, a second load must fail alike, and after the repair the load "
+         "succeeds with one model per file, cached files being the cached objects and all references pointing into registered models."),
+   design_ref='DESIGN.md 4 (C18)'),
+})
+
+CHECKS.update({
+ 'C25': dict(
+   category='exploration', engine='symx', note=ENUM_NOTE,
+   technique='exhaustive enumeration (symx selectors) of generated grammar-file trees (which files define the shared rule name, import orders, cycle, diamond) compiled by the real metamodel_from_file and compared with a reference implementation of the documented lookup order; no solver verdict',
+   text=("Path-exhaustive: 7 grammar files in nested directories (root, two root-level files, pkg/a, pkg/leaf, pkg/sub/deep, pkg/sub/leaf); every subset of files defining the shared "
+         "rule X, 3 x 2 import orders, cycle and diamond on/off (3072 trees): the class of every reference is the class object of the prescribed file's X and reports its file-based "
+         "qualified name, metamodel['base.X'] and [base.X] select base.tx's rule, every importer shares one namespace object per file, and a model using every reference loads with "
+         "objects of the prescribed definitions."),
+   design_ref='DESIGN.md 4 (C25)'),
+})
+
 NA = {
- 'C17': "decided by file-system I/O, glob, abspath and repository objects handed between nested real loads; only enumeration of import graphs would remain (DESIGN.md 5)",
- 'C18': "same code and obstacle as C17 crossed with fault points; enumeration of concrete runs only (DESIGN.md 5)",
- 'C25': "driven by os.path manipulation and recursive metamodel_from_file over directories, lookup through dicts keyed by concrete strings; only enumeration of file trees would remain (DESIGN.md 5)",
 }
 PENDING = "check not built yet in this round (design in DESIGN.md 4); not claimed until its check exists"
 
